@@ -248,16 +248,15 @@ def histories(shard, rec, lib, scratch):
         case = {"probe": probe}
         hs = hashseeds[(pi + shard["idx"]) % 4]
         ref = fresh(probe, hs)
-        rec.ev()
         if ref.startswith("FRESH-FAILED"):
             rec.inconc("fresh interpreter probe failed: " + ref[:300])
             continue
-        rec.count("fresh_observations")
+        rec.count("fresh_observations"); rec.ev()
         rec.count(f"hashseed:{hs}")
         needs = wcag.ratio(tuple(probe["t"]), tuple(probe["b"])) < wcag.minimum(probe["large"], probe["vr"])
         # second fresh interpreter under a different hash seed
         ref2 = fresh(probe, hashseeds[(pi + shard["idx"] + 1) % 4])
-        rec.count("fresh_observations")
+        rec.count("fresh_observations"); rec.ev()
         if ref2 != ref:
             rec.violation(f"probe {probe_desc(probe)} differs between two fresh interpreters: {ref} vs {ref2}", dict(case, how="fresh-vs-fresh"))
             continue
@@ -270,7 +269,7 @@ def histories(shard, rec, lib, scratch):
             rec.count("history_ops", len(ops))
             rec.count("history_ops_raised", errs)
             got = run_probe(lib, probe)
-            rec.count("history_observations")
+            rec.count("history_observations"); rec.ev()
             if needs:
                 rec.nontrivial((json.dumps(probe, sort_keys=True), h))
             if got != ref:
@@ -285,7 +284,7 @@ def histories(shard, rec, lib, scratch):
             for pos in range(len(others) + 1):
                 lst = others[:pos] + [me] + others[pos:]
                 res = lib.make_readable_bulk(lst, mode=probe["mode"], very_readable=probe["vr"])
-                rec.count("bulk_position_observations")
+                rec.count("bulk_position_observations"); rec.ev()
                 if res[pos] != alone:
                     rec.violation(f"probe {probe_desc(probe)} at bulk position {pos} gives {res[pos]!r} but {alone!r} alone", dict(case, how="bulk-position", pos=pos))
                     break
@@ -295,7 +294,7 @@ def histories(shard, rec, lib, scratch):
                 alone2 = lib.make_readable_bulk([me2], mode=probe["mode"], very_readable=probe["vr"])[0]
                 lst = [("#777777", "#ffffff", True), ((90, 90, 90), (100, 100, 100), True), me2, ("#888", "#fff"), me2]
                 res = lib.make_readable_bulk(lst, mode=probe["mode"], very_readable=probe["vr"])
-                rec.count("bulk_position_observations", 2)
+                rec.count("bulk_position_observations", 2); rec.ev(2)
                 if res[2] != alone2 or res[4] != alone2:
                     rec.violation(f"probe {probe_desc(probe)} as a 2-element bulk entry after large-text entries gives {res[2]!r} / {res[4]!r} but {alone2!r} alone",
                                   dict(case, how="bulk-after-large"))
@@ -306,7 +305,7 @@ def histories(shard, rec, lib, scratch):
         for k in range(3):
             outs.append(repr(pair.make_readable(mode=probe["mode"], very_readable=probe["vr"])))
             _ = pair.is_readable
-            rec.count("repeat_observations")
+            rec.count("repeat_observations"); rec.ev()
         # interleave another setting on the same object, then repeat
         pair.make_readable(mode=(probe["mode"] + 1) % 3, very_readable=not probe["vr"])
         outs.append(repr(pair.make_readable(mode=probe["mode"], very_readable=probe["vr"])))
@@ -389,7 +388,6 @@ def threads(shard, rec, lib, scratch):
             if any(t.is_alive() for t in ths):
                 rec.inconc("thread round did not finish within the watchdog")
                 return
-            rec.ev()
             orders.add(tuple(log))
             # overlap: max number of operations open at once
             open_now = peak = 0
@@ -399,7 +397,7 @@ def threads(shard, rec, lib, scratch):
             rec.maxi("max_concurrently_open_operations", peak)
             for ti in range(nthreads):
                 for oi, p in enumerate(plans[ti]):
-                    rec.count("thread_observations")
+                    rec.count("thread_observations"); rec.ev()
                     want = ref[json.dumps(p, sort_keys=True)]
                     if results[ti][oi] != want:
                         rec.violation(f"probe {probe_desc(p)} issued from thread {ti} concurrently with 7 others gives {results[ti][oi]} but {want} sequentially",
